@@ -22,3 +22,23 @@ Lemma NumTR_laws : NumTLaws NumR NumTR.
 Proof.
   split; intro x; cbn [radians_ degrees_ NumTR]; rewrite lit180_R; reflexivity.
 Qed.
+
+(* The three order facts Arc._parameterize's Python evaluates STATICALLY (`0 >= 0`, `180 >= 0`,
+   `180 <= 0` on ints, when delta has just been set to the int 0 or 180) and the model states with
+   the carrier's comparison.  They hold at the real instance. *)
+Record NumOrdFacts {K : Type} (N : Num K) : Prop := mkNumOrdFacts {
+  leb_0_0 : leb N (zero N) (zero N) = true;
+  leb_0_180 : leb N (zero N) (lit N 180%Z) = true;
+  leb_180_0 : leb N (lit N 180%Z) (zero N) = false
+}.
+Arguments leb_0_0 {K N} _.
+Arguments leb_0_180 {K N} _.
+Arguments leb_180_0 {K N} _.
+
+Lemma NumR_ordfacts : NumOrdFacts NumR.
+Proof.
+  split.
+  - apply Rle_b_true. cbn. lra.
+  - apply Rle_b_true. rewrite lit180_R. cbn. lra.
+  - apply Rle_b_false. rewrite lit180_R. cbn. lra.
+Qed.
